@@ -3,7 +3,7 @@
     program) produces well-formed semantic normal forms and obeys the documented laws of the
     block combinators. *)
 From Coq Require Import ZArith List Bool Arith String.
-From SP Require Import Design.Sem Design.Flat Design.DocSem Design.DocSemProofs Design.DocSemPlain.
+From SP Require Import Design.Sem Design.Flat Design.DocSem Design.DocSemProofs Design.DocSemPlain Design.DocSemWf.
 Import ListNotations.
 Local Open Scope nat_scope.
 
@@ -27,6 +27,13 @@ Theorem T2_doc_sem_sustain_pos : forall p ds, doc_sem p = Ok ds ->
   forall fd, In fd (s_factors (ds_sem ds)) -> 0 < f_sustain fd.
 Proof. exact doc_sem_sustain_pos. Qed.
 Print Assumptions T2_doc_sem_sustain_pos.
+
+(** a derived factor is listed after the factors it depends on ([Sem.all_valid] fills rows in list order) *)
+Theorem T2_doc_sem_deps_before : forall p ds, doc_sem p = Ok ds ->
+  forall i fd w, nth_error (s_factors (ds_sem ds)) i = Some fd -> f_derived fd = Some w ->
+  forall pd, In pd (w_deps w) -> pd < i.
+Proof. exact doc_sem_deps_before. Qed.
+Print Assumptions T2_doc_sem_deps_before.
 
 (** (b) CrossBlock(d, c, cs, rcc) = MultiCrossBlock(d, [c], cs, rcc, WEIGHT) *)
 Theorem T2_cross_is_multi_weight : forall p d c cs rcc,
